@@ -346,7 +346,7 @@ func c15(c *Ctx) {
 					inspectNoLit(l2.Body, func(n ast.Node) bool {
 						if call, ok := n.(*ast.CallExpr); ok {
 							if id, ok := unparen(call.Fun).(*ast.Ident); ok {
-								if v, ok := info.Uses[id].(*types.Var); ok && v.Pos() > fn.Pos() && v.Pos() < fn.Body().End() {
+								if v, ok := info.Uses[id].(*types.Var); ok && (definedIn(info, fn.Body(), v) || mix.FG(fn).isParam(v)) {
 									good = true
 								}
 							}
